@@ -355,6 +355,8 @@ spf_appendmakro(char **res, unsigned int *l, const char *const s, const unsigned
 			free(news);
 			return -1;
 		}
+		/* urlencode() below expects a terminated string */
+		tmp[v] = '\0';
 		dot = news;
 		nl = v;
 		dc = num - 1;
